@@ -180,12 +180,105 @@ fn ops_delete_func() {
     std::mem::forget(m);
 }
 
-// NOT DECIDED (measured): convert_local_fn_to_import_with_tag and convert_import_fn_to_local.  Both end in
-// Function::set_kind, whose assignment drops the previous FuncKind; CBMC unwinds the drop glue of
-// [Instruction] / [Operator] slices with a length it no longer knows and does not finish (25 min cap, also for
-// the refused call and with concrete ids and empty bodies).  Their ingredients are decided separately:
-// add_import (ops_add_import_func), delete_func (ops_delete_func) and the re-indexing of every state such a
-// conversion can produce (K-reindex: Inv contains converted entities in both directions).
+/// Stub for Function::set_kind (the only stub besides fmt::format): same effect - new kind, `deleted` reset - but
+/// the OLD kind is leaked instead of dropped.  Running the drop glue of FuncKind (Box<LocalFunction> ->
+/// Vec<Instruction> -> wasmparser Operators) is what CBMC cannot finish (measured: no result in 25 min, with the
+/// stub 12 s); destructors are no property's subject.
+pub fn set_kind_no_drop<'a>(this: &mut Function<'a>, kind: FuncKind<'a>)
+where
+    'a: 'a,
+{
+    let old = std::mem::replace(&mut this.kind, kind);
+    std::mem::forget(old);
+    this.deleted = false;
+}
+
+/// C11: convert_local_fn_to_import turns exactly that local into an import bound to a NEW entry; an imported
+/// function is refused and nothing changes.
+// @harness props=C11,C06 tier=quick timeout=1500 weight=2
+#[kani::proof]
+#[kani::stub(alloc::fmt::format, crate::kh::no_format)]
+#[kani::stub(crate::ir::module::module_functions::Function::set_kind, set_kind_no_drop)]
+#[kani::unwind(10)]
+fn ops_convert_local_to_import() {
+    let mut m = base();
+    let id: u32 = kani::any();
+    kani::assume(id < 4);
+    let ty: u32 = kani::any();
+    let r = m.convert_local_fn_to_import(FunctionID(id), "mod".to_string(), "nm".to_string(), TypeID(ty));
+    assert!(r == (id >= 2), "return value does not say whether the function was local");
+    if r {
+        let f = m.functions.get(FunctionID(id));
+        assert!(f.is_import() && !f.is_deleted() && f.get_id() == id, "C11: the converted function is not a live import with its old id");
+        assert!(func_import_id(f) == Some(4), "C11: the converted function is not bound to the new import entry");
+        assert!(*f.get_type_id() == ty, "C11: requested type lost");
+        let e = m.imports.get(ImportsID(4));
+        assert!(matches!(e.ty, TypeRef::Func(t) if t == ty) && !e.deleted, "C11: new import entry wrong");
+        assert!(m.imports.num_funcs == 3 && m.imports.num_funcs_added == 1, "import counters out of step");
+    } else {
+        assert!(m.imports.len() == 4 && m.imports.num_funcs == 2, "a refused conversion changed the imports");
+    }
+    inv_functions(&m, 4);
+    let mut p = 0;
+    for f in m.functions.iter() {
+        if p != id {
+            assert!(!f.is_deleted() && f.is_import() == (p < 2), "C11: another function changed");
+        }
+        p += 1;
+    }
+    kani::cover!(r && id == 2, "first local converted");
+    kani::cover!(!r, "refused: already an import");
+    std::mem::forget(m);
+}
+
+/// C10: convert_import_fn_to_local (what FunctionBuilder::replace_import_in_module calls) makes the function
+/// BOUND TO THE GIVEN IMPORT a local function and removes that import; every other function and import keeps
+/// its identity - also when ANOTHER function (an earlier or later import, or a local) was deleted before.
+/// The module has a non-function import between the two function imports.
+// @harness props=C10,C06 tier=quick timeout=1500 weight=2
+#[kani::proof]
+#[kani::stub(alloc::fmt::format, crate::kh::no_format)]
+#[kani::stub(crate::ir::module::module_functions::Function::set_kind, set_kind_no_drop)]
+#[kani::unwind(10)]
+fn ops_convert_import_to_local() {
+    let mut m = base();
+    // optionally delete some OTHER function first
+    let pre: u32 = kani::any();
+    kani::assume(pre <= 4);
+    // the import to replace: one of the two function imports (entries 0 and 2)
+    let second: bool = kani::any();
+    let iid: u32 = if second { 2 } else { 0 };
+    let fid_bound: u32 = if second { 1 } else { 0 };
+    kani::assume(pre != fid_bound);
+    if pre < 4 {
+        m.delete_func(FunctionID(pre));
+    }
+    let lf = LocalFunction::new(TypeID(0), FunctionID(iid), Body::default(), 0, None);
+    let r = m.convert_import_fn_to_local(ImportsID(iid), lf);
+    assert!(r, "C10: replacing a function import was refused");
+    let mut p = 0;
+    for f in m.functions.iter() {
+        if p == fid_bound {
+            assert!(f.is_local() && !f.is_deleted() && f.get_id() == fid_bound, "C10: the function bound to the replaced import did not become a live local function (with its own id)");
+        } else {
+            assert!(f.is_import() == (p < 2) && f.is_deleted() == (p == pre), "C10: another function lost its identity");
+        }
+        p += 1;
+    }
+    let other_iid: u32 = if second { 0 } else { 2 };
+    let other_fid: u32 = if second { 0 } else { 1 };
+    let mut e = 0;
+    for i in m.imports.iter() {
+        let want = e == iid || (e == other_iid && pre == other_fid);
+        assert!(i.deleted == want, "C10: not exactly the replaced import entry (and the one deleted before) is flagged deleted");
+        e += 1;
+    }
+    inv_functions(&m, 4);
+    kani::cover!(second && pre == 0, "an earlier function import was deleted before the replacement");
+    kani::cover!(!second && pre == 4, "first function import, nothing deleted");
+    kani::cover!(pre == 3, "a local function was deleted before");
+    std::mem::forget(m);
+}
 
 /// C29: set_fn_name names exactly the function the id designates (import or local).
 // @harness props=C29 tier=quick timeout=1500 weight=2
